@@ -145,6 +145,7 @@ type Env struct {
 	noSafety bool               // no safety obligations while evaluating (contract expressions)
 	depth    int
 	oldMode  bool
+	callerSide bool
 	visitedSet string
 }
 
